@@ -12,6 +12,7 @@ package main
 import (
 	"bytes"
 	"fmt"
+	"os"
 
 	"gitlab.com/gomidi/midi/v2"
 	"gitlab.com/gomidi/midi/v2/internal/verifh/engine"
@@ -299,7 +300,82 @@ func genFiles() [][]byte {
 			}
 		}
 	}
+	// files the library's writer never produces: bytes after the end-of-track
+	// inside the chunk (declared length longer than the events) in the last and
+	// in an earlier track, an unknown chunk and plain garbage after the last track
+	ev := []byte{0x00, 0x90, 0x3C, 0x40, 0x10, 0x80, 0x3C, 0x00, 0x00, 0xFF, 0x2F, 0x00}
+	pad := []byte{0x00, 0x00, 0x00, 0x00}
+	trk := func(body []byte) []byte { return refsmf.Chunk("MTrk", body) }
+	padded := append(append([]byte{}, ev...), pad...)
+	out = append(out,
+		append(refsmf.Header(0, 1, 96), trk(padded)...),
+		append(append(refsmf.Header(1, 2, 96), trk(padded)...), trk(ev)...),
+		append(append(refsmf.Header(1, 2, 96), trk(ev)...), trk(padded)...),
+		append(append(refsmf.Header(0, 1, 96), trk(ev)...), refsmf.Chunk("XFIH", []byte{1, 2, 3, 4, 5})...),
+		append(append(refsmf.Header(0, 1, 96), trk(ev)...), 0xDE, 0xAD, 0xBE, 0xEF, 0x00),
+	)
 	return out
+}
+
+// writeFileFaults: WriteFile onto destinations that cannot take the data must
+// report an error, whatever the size of the file (smaller or larger than any
+// buffer in between).
+func writeFileFaults() {
+	dir, err := os.MkdirTemp(os.Getenv("VERIF_WORK"), "c10-writefile-")
+	if err != nil {
+		ctx.Guard(false, "no temp dir: %v", err)
+		return
+	}
+	defer os.RemoveAll(dir)
+	al := sp.FullAlphabet()
+	mk := func(n int) *sp.Inst {
+		var ops []sp.Op
+		for i := 0; i < n; i++ {
+			ops = append(ops, sp.Op{Kind: sp.OpAdd, D: uint32(i % 3), M1: i % len(al)})
+		}
+		ops = append(ops, sp.Op{Kind: sp.OpSMFAdd})
+		return sp.Build(sp.Cfg{Ctor: 0, TF: smf.MetricTicks(96)}, al, ops)
+	}
+	type dest struct{ name, path string }
+	var dests []dest
+	if f, err := os.OpenFile("/dev/full", os.O_WRONLY, 0); err == nil {
+		f.Close()
+		link := dir + "/full.mid"
+		if os.Symlink("/dev/full", link) == nil {
+			dests = append(dests, dest{"device-without-space", link})
+		}
+	} else {
+		ctx.Add("writefile_dev_full_unavailable", 1)
+	}
+	dests = append(dests, dest{"missing-directory", dir + "/no/such/dir/song.mid"})
+	os.Mkdir(dir+"/adir.mid", 0o755)
+	dests = append(dests, dest{"path-is-a-directory", dir + "/adir.mid"})
+	for _, d := range dests {
+		for _, n := range []int{0, 1, 30, 400, 900, 1300, 3000, 20000} {
+			ctx.Eval()
+			in := mk(n)
+			var size bytes.Buffer
+			in.Clone().S.WriteTo(&size)
+			if d.name == "device-without-space" {
+				os.Remove(d.path)
+				os.Symlink("/dev/full", d.path)
+			}
+			var werr error
+			c := engine.Catch(func() { werr = in.S.WriteFile(d.path) })
+			ctx.NontrivialN(1)
+			switch {
+			case c.Panicked:
+				ctx.Violation(c.Sig+":WriteFile:"+d.name, map[string]interface{}{"kind": "writefile-fault", "destination": d.name, "events": n, "what": "WriteFile panicked: " + c.Value})
+			case werr == nil:
+				sig := "writefile-nil:" + d.name
+				if ctx.SigCount(sig) < 5 {
+					ctx.Violation(sig, map[string]interface{}{"kind": "writefile-fault", "destination": d.name, "events": n, "file_size": size.Len(),
+						"what": fmt.Sprintf("WriteFile of a %d-byte file to a destination that cannot take it (%s) returned nil", size.Len(), d.name)})
+				}
+			}
+			ctx.Add("writefile_fault_cases", 1)
+		}
+	}
 }
 
 func main() {
@@ -326,6 +402,7 @@ func main() {
 			}
 		}
 	}
+	ctx.Jobs("writefile", 1, func(int) { writeFileFaults() })
 	ctx.Jobs("state-space", len(sj), func(j int) { sp.RunPlanCfgShard(ctx, sj[j].p, sj[j].cfg, sj[j].op, stateCheck) })
 	ctx.Set("api_values", len(vals))
 	ctx.Set("generated_files", len(gf))
@@ -337,6 +414,10 @@ func main() {
 
 func replay() {
 	m := ctx.LoadReplay()
+	if m["kind"] == "writefile-fault" {
+		writeFileFaults()
+		ctx.Finish("replay")
+	}
 	if m["kind"] == "read-fault" {
 		readFaults(engine.UnHex(m["file"].(string)), "replay")
 		ctx.Finish("replay")
